@@ -8,7 +8,7 @@ Everything is in the namespace `Dns.Rfc` (the round-trip lemma files use some
 of the same short names in `Dns`).
 -/
 import SimpleDnsModel.Lemmas.Name
-import SimpleDnsModel.Lemmas.NoPanic
+import SimpleDnsModel.Lemmas.Framing
 import SimpleDnsModel.Model.WF
 import SimpleDnsModel.Spec.RdataSchemas
 import SimpleDnsModel.Spec.Rfc6891
@@ -89,6 +89,963 @@ theorem encTlvs22_eq_encodeOptions (xs : List (Nat × Bytes)) :
     obtain ⟨k, v⟩ := x
     simp only [encTlvs, Spec.Rfc6891.encodeOptions, ih, beN_eq_octetsOf, Spec.octetsOf]
     simp [ofNat_mod_256]
+
+/-! ### writers succeed on well-formed values -/
+
+theorem encTlvs_length (kw lw : Nat) (xs : List (Nat × Bytes)) :
+    (encTlvs kw lw xs).length = (xs.map (fun x => x.2.length + kw + lw)).sum := by
+  induction xs with
+  | nil => rfl
+  | cons x xs ih =>
+    obtain ⟨k, v⟩ := x
+    simp [encTlvs, ih]; omega
+
+/-- `OPT::len()` is the length of the option list it writes -/
+theorem opt_len (o : OptData) : (RData.opt o).len = (Spec.Rfc6891.encodeOptions o.codes).length := by
+  rw [← encTlvs22_eq_encodeOptions, encTlvs_length]
+  simp only [RData.len]
+
+theorem RData.write_ok {rd : RData} (h : rd.WF) : ∃ b, rd.write = .ok b := by
+  cases rd with
+  | flat code vs =>
+    obtain ⟨hs, hc, _⟩ := h
+    unfold SchemaOK at hs
+    split at hs
+    · rename_i ks hks
+      exact ⟨encAll ks vs, by simp [RData.write, hks, hc]⟩
+    · cases hs
+  | ipseckey => exact ⟨_, rfl⟩
+  | opt => exact ⟨_, rfl⟩
+  | null => exact ⟨_, rfl⟩
+  | empty => exact ⟨_, rfl⟩
+
+theorem RR.write_ok {r : RR} (h : r.WF) : ∃ b, r.write = .ok b := by
+  obtain ⟨b, hb⟩ := RData.write_ok h.2.2.1
+  exact ⟨Name.write r.name ++ (r.writeCommon ++ (beN 2 r.rdata.len ++ b)), by simp [RR.write, hb]⟩
+
+theorem writeRRs_ok : ∀ {rs : List RR}, (∀ r ∈ rs, r.WF) → ∃ b, writeRRs rs = .ok b
+  | [], _ => ⟨[], rfl⟩
+  | r :: rs, h => by
+    obtain ⟨a, ha⟩ := RR.write_ok (h r (by simp))
+    obtain ⟨b, hb⟩ := writeRRs_ok (rs := rs) (fun x hx => h x (by simp [hx]))
+    exact ⟨a ++ b, by simp [writeRRs, ha, hb]⟩
+
+/-! ### reading triples: what a successful read says about the bytes -/
+
+theorem slice_val {d s : Bytes} {a b : Nat} (h : slice d a b = .ok s) :
+    a ≤ b ∧ b ≤ d.length ∧ s = (d.drop a).take (b - a) := by
+  unfold slice at h
+  split at h
+  · rename_i hc; cases h; exact ⟨hc.1, hc.2, rfl⟩
+  · cases h
+
+theorem take_take_drop (l : Bytes) (a m n : Nat) :
+    (l.drop a).take m ++ (l.drop (a + m)).take n = (l.drop a).take (m + n) := by
+  rw [List.take_add, List.drop_drop]
+
+/-- what a successfully read triple says about the bytes it was read from -/
+theorem tlvOne_bytes {b : Bytes} {kw lw : Nat} {strict : Bool} {prev : Option Nat} {pos : Nat}
+    {k : Nat} {v : Bytes} {p : Nat} (h : tlvOne b kw lw strict prev pos = .ok ((k, v), p)) :
+    p = pos + kw + lw + v.length ∧ p ≤ b.length ∧
+    (b.drop pos).take (kw + lw + v.length) = beN kw k ++ (beN lw v.length ++ v) ∧
+    k < 256 ^ kw ∧ v.length < 256 ^ lw ∧
+    (strict = true → ∀ q, prev = some q → q < k) := by
+  unfold tlvOne at h
+  split at h
+  · cases h
+  · obtain ⟨kb, hkb, h⟩ := Out.bind_eq_ok h
+    obtain ⟨lb, hlb, h⟩ := Out.bind_eq_ok h
+    split at h
+    · cases h
+    · rename_i hstrict
+      split at h
+      · cases h
+      · rename_i hfit
+        obtain ⟨v', hv, h⟩ := Out.bind_eq_ok h
+        simp only [Out.pure_eq, Out.ok.injEq, Prod.mk.injEq] at h
+        obtain ⟨⟨hk, hvv⟩, hp⟩ := h
+        subst hvv
+        obtain ⟨_, _, hkb'⟩ := slice_val hkb
+        obtain ⟨_, _, hlb'⟩ := slice_val hlb
+        obtain ⟨_, _, hv'⟩ := slice_val hv
+        have hkl : kb.length = kw := by rw [slice_length hkb]; omega
+        have hll : lb.length = lw := by rw [slice_length hlb]; omega
+        have hvl : v'.length = deN lb := by rw [slice_length hv]; omega
+        refine ⟨by omega, by omega, ?_, ?_, ?_, ?_⟩
+        · have e1 : beN kw (deN kb) = (b.drop pos).take kw := by
+            have := beN_deN kb
+            rw [hkl] at this
+            rw [this, hkb', show pos + kw - pos = kw by omega]
+          have e2 : beN lw (deN lb) = (b.drop (pos + kw)).take lw := by
+            have := beN_deN lb
+            rw [hll] at this
+            rw [this, hlb', show pos + kw + lw - (pos + kw) = lw by omega]
+          have e3 : v' = (b.drop (pos + kw + lw)).take (deN lb) := by
+            rw [hv', show pos + kw + lw + deN lb - (pos + kw + lw) = deN lb by omega]
+          rw [← hk, hvl, e1, e2]
+          generalize deN lb = L at *
+          rw [e3, take_take_drop, take_take_drop, Nat.add_assoc]
+        · rw [← hk, ← hkl]; exact deN_lt kb
+        · rw [hvl, ← hll]; exact deN_lt lb
+        · intro hs q hq
+          subst hq hs
+          simp [keyNotAfter] at hstrict
+          omega
+
+/-- a successful option loop: the bytes from `pos` to the end of the buffer are the encoding of
+the options it returns (after those already accumulated) -/
+theorem optLoop_bytes {b : Bytes} {pos : Nat} {acc xs : List (Nat × Bytes)} {p : Nat}
+    (hp : pos ≤ b.length) (h : optLoop b pos acc = .ok (xs, p)) :
+    ∃ ys, xs = acc.reverse ++ ys ∧ b.drop pos = encTlvs 2 2 ys ∧
+      (∀ y ∈ ys, y.1 < 65536 ∧ y.2.length < 65536) ∧ p = b.length := by
+  induction hn : b.length - pos using Nat.strongRecOn generalizing pos acc with
+  | _ n ih =>
+    rw [optLoop] at h
+    split at h
+    · split at h
+      · rename_i x p' hone
+        obtain ⟨k, v⟩ := x
+        obtain ⟨hp', hle, hbytes, hk, hv, _⟩ := tlvOne_bytes hone
+        obtain ⟨ys, hxs, hdrop, hall, hend⟩ := ih (b.length - p') (by omega) hle h rfl
+        refine ⟨(k, v) :: ys, by simp [hxs], ?_, ?_, hend⟩
+        · rw [← List.take_append_drop (2 + 2 + v.length) (b.drop pos), hbytes, List.drop_drop,
+            show pos + (2 + 2 + v.length) = p' by omega, hdrop]
+          simp [encTlvs]
+        · intro y hy
+          rcases List.mem_cons.mp hy with rfl | hy
+          · exact ⟨hk, hv⟩
+          · exact hall y hy
+      · cases h
+      · cases h
+    · cases h
+      exact ⟨[], by simp, by simp [encTlvs]; omega, by simp, by omega⟩
+
+/-! ### the OPT pseudo-record as parsed, against the walked entry -/
+
+theorem version_bits (t : Nat) : ((t &&& 0xFF00) >>> 8) % 256 = t / 256 % 256 := by
+  rw [Nat.shiftRight_and_distrib]
+  have : (0xFF00 >>> 8 : Nat) = 2 ^ 8 - 1 := by decide
+  rw [this, Nat.and_two_pow_sub_one_eq_mod, Nat.shiftRight_eq_div_pow]
+  simp
+
+theorem ofCode_eq_OPT {t : Nat} (h : TYPE.ofCode t = .OPT) : t = 41 := by
+  have : (TYPE.ofCode t).toCode = t := by unfold TYPE.ofCode; split <;> rfl
+  rw [h] at this
+  exact this.symm
+
+theorem walkRecord_fields {d : Bytes} {off : Nat} {e : Spec.REntry}
+    (h : Spec.walkRecord d off = some e) :
+    e.off = off ∧ Spec.skipName d (d.length + 1) off = some e.nameEnd ∧
+    Spec.field d e.nameEnd 2 = some e.type ∧ Spec.field d (e.nameEnd + 2) 2 = some e.cls ∧
+    Spec.field d (e.nameEnd + 4) 4 = some e.ttl ∧ Spec.field d (e.nameEnd + 8) 2 = some e.rdlen ∧
+    e.nameEnd + 10 + e.rdlen ≤ d.length := by
+  unfold Spec.walkRecord at h
+  simp only [Option.bind_eq_bind, Option.bind_eq_some_iff] at h
+  obtain ⟨ne, hne, t, ht, c, hc, ttl, httl, l, hl, h⟩ := h
+  split at h
+  · rename_i hle
+    simp only [Option.pure_def, Option.some.injEq] at h
+    subst h
+    exact ⟨rfl, hne, ht, hc, httl, hl, hle⟩
+  · cases h
+
+/-- what a parsed record with OPT content has to do with the walked entry at its offset:
+TYPE 41, UDP size = the CLASS field, version = the second-lowest TTL octet (the library's
+position), and the RDLENGTH bytes of RDATA are RFC 6891's encoding of the parsed options -/
+def OptOK (d : Bytes) (r : RR) (e : Spec.REntry) : Prop :=
+  ∀ o, r.rdata = .opt o →
+    e.type = 41 ∧ r.cls = .IN ∧ r.flush = false ∧ o.udp = e.cls ∧ o.version = e.ttl / 256 % 256 ∧
+    (d.drop e.rdStart).take e.rdlen = Spec.Rfc6891.encodeOptions o.codes ∧
+    (∀ y ∈ o.codes, y.1 < 65536 ∧ y.2.length < 65536)
+
+theorem RR.parse_optOK {d : Bytes} {off : Nat} {r : RR} {p : Nat} {e : Spec.REntry}
+    (h : RR.parse d off = .ok (r, p)) (he : Spec.walkRecord d off = some e) : OptOK d r e := by
+  intro o ho
+  obtain ⟨_, hskip, hty, hcls, httl, hlen, hfit⟩ := walkRecord_fields he
+  unfold RR.parse at h
+  obtain ⟨⟨name, q⟩, hname, h⟩ := Out.bind_eq_ok h
+  dsimp only at h
+  have hq : q = e.nameEnd := by
+    have := Framing.skipName_of_parse hname
+    rw [hskip] at this
+    exact (Option.some.inj this).symm
+  subst hq
+  split at h
+  · cases h
+  · obtain ⟨cb, hcb, h⟩ := Out.bind_eq_ok h
+    obtain ⟨tb, htb, h⟩ := Out.bind_eq_ok h
+    obtain ⟨⟨rdata, p'⟩, hrd, h⟩ := Out.bind_eq_ok h
+    dsimp only at h
+    have hrdata : rdata = .opt o ∧ r.cls = .IN ∧ r.flush = false := by
+      split at h
+      · cases h; exact ⟨ho, rfl, rfl⟩
+      · rename_i hno
+        obtain ⟨cls, _, h⟩ := Out.bind_eq_ok h
+        cases h
+        simp only at ho
+        rw [ho] at hno
+        exact absurd rfl hno
+    obtain ⟨hrdata, hcls', hflush⟩ := hrdata
+    subst hrdata
+    -- the type field says OPT
+    obtain ⟨t, l, ht, hl, _, _, htyp⟩ := Framing.RData.parse_frame hrd
+    rw [hty] at ht
+    rw [hlen] at hl
+    cases ht; cases hl
+    have h41 : e.type = 41 := ofCode_eq_OPT htyp.symm
+    rw [Framing.RData.parse_eq_rdataOn hlen hfit] at hrd
+    unfold Framing.rdataOn at hrd
+    have htake : deN (List.take 2 (List.drop e.nameEnd (List.take (e.nameEnd + 10 + e.rdlen) d)))
+        = e.type := by
+      have := Framing.field_take (d := d) (a := e.nameEnd) (w := 2) (k := e.nameEnd + 10 + e.rdlen)
+        (by omega) hfit
+      rw [hty, Framing.field_eq (by simp; omega)] at this
+      exact Option.some.inj this
+    simp only [htake, h41] at hrd
+    rw [if_pos (by decide)] at hrd
+    unfold optParse at hrd
+    split at hrd
+    · cases hrd
+    · obtain ⟨ub, hub, hrd⟩ := Out.bind_eq_ok hrd
+      obtain ⟨tb2, htb2, hrd⟩ := Out.bind_eq_ok hrd
+      dsimp only at hrd
+      obtain ⟨⟨codes, pc⟩, hloop, hrd⟩ := Out.bind_eq_ok hrd
+      simp only [Out.pure_eq, Out.ok.injEq, Prod.mk.injEq, RData.opt.injEq] at hrd
+      obtain ⟨ho', _⟩ := hrd
+      subst ho'
+      have hu : Spec.field d (e.nameEnd + 2) 2 = some (deN ub) := by
+        rw [← Framing.field_take (k := e.nameEnd + 10 + e.rdlen) (by omega) hfit]
+        exact Framing.field_of_slice rfl hub
+      have ht4 : Spec.field d (e.nameEnd + 4) 4 = some (deN tb2) := by
+        rw [← Framing.field_take (k := e.nameEnd + 10 + e.rdlen) (by omega) hfit]
+        exact Framing.field_of_slice rfl htb2
+      rw [hcls] at hu
+      rw [httl] at ht4
+      have hu := Option.some.inj hu
+      have ht4 := Option.some.inj ht4
+      obtain ⟨ys, hxs, hdrop, hall, _⟩ := optLoop_bytes (by simp; omega) hloop
+      simp only [List.reverse_nil, List.nil_append] at hxs
+      subst hxs
+      refine ⟨h41, hcls', hflush, hu.symm, by rw [← ht4]; exact version_bits _, ?_, hall⟩
+      rw [← encTlvs22_eq_encodeOptions, ← hdrop, List.drop_take]
+      simp [Spec.REntry.rdStart]
+
+theorem parseRRs_optOK {d : Bytes} {n off : Nat} {rs : List RR} {p : Nat}
+    (h : parseRRs d n off = .ok (rs, p)) {es : List Spec.REntry} {p' : Nat}
+    (hes : Spec.walkRecords d n off = some (es, p')) : Framing.Corr (OptOK d) rs es := by
+  induction n generalizing off rs p es p' with
+  | zero =>
+    simp only [parseRRs] at h
+    simp only [Spec.walkRecords, Option.some.injEq, Prod.mk.injEq] at hes
+    cases h; rw [← hes.1]
+    exact Framing.Corr.nil
+  | succ n ih =>
+    simp only [parseRRs] at h
+    obtain ⟨⟨r, q⟩, hr, h⟩ := Out.bind_eq_ok h
+    dsimp only at h
+    obtain ⟨⟨rs', q'⟩, hrs, h⟩ := Out.bind_eq_ok h
+    cases h
+    obtain ⟨e, he, _, hq, _⟩ := Framing.RR.parse_frame hr
+    subst hq
+    simp only [Spec.walkRecords, he, Option.bind_eq_bind, Option.bind_some,
+      Option.bind_eq_some_iff] at hes
+    obtain ⟨⟨es', p''⟩, hes', hes⟩ := hes
+    simp only [Option.pure_def, Option.some.injEq, Prod.mk.injEq] at hes
+    rw [← hes.1]
+    exact Framing.Corr.cons (RR.parse_optOK hr he) (ih hrs hes')
+
+/-! ### decoding a reference encoding, one field at a time
+
+`d = pre ++ (encoding ++ post)`, cursor at `pre.length`: the reader returns the value and the
+cursor just past the encoding. Kinds that read to the end of the RDATA take `post = []`. -/
+
+theorem slice_at {d a m z : Bytes} {x y : Nat} (hd : d = a ++ (m ++ z)) (hx : x = a.length)
+    (hy : y = a.length + m.length) : slice d x y = .ok m := by
+  subst hd; exact slice_mid a m z x y hx hy
+
+theorem idx_at {d a z : Bytes} {b : UInt8} {x : Nat} (hd : d = a ++ (b :: z)) (hx : x = a.length) :
+    idx d x = .ok b := by
+  subst hd hx; simp [idx]
+
+theorem decode_int (pre post : Bytes) (w n : Nat) (h : n < 256 ^ w) :
+    decField (pre ++ (beN w n ++ post)) (.int w) pre.length = .ok (.int n, pre.length + w) := by
+  simp only [decField]
+  rw [if_neg (by simp), slice_at (a := pre) (m := beN w n) (z := post) rfl rfl (by simp)]
+  simp [deN_beN w n h]
+
+theorem charStr_decode (pre s post : Bytes) (hs : s.length ≤ 255) :
+    CharStr.parse (pre ++ (CharStr.write s ++ post)) pre.length
+      = .ok (s, pre.length + (s.length + 1)) := by
+  have hlb : (UInt8.ofNat s.length).toNat = s.length := by
+    simp [UInt8.toNat_ofNat']; omega
+  unfold CharStr.parse
+  rw [if_neg (by simp [CharStr.write])]
+  rw [idx_at (b := UInt8.ofNat s.length) (a := pre) (z := s ++ post) (by simp [CharStr.write]) rfl]
+  simp only [Out.bind_ok, hlb]
+  rw [if_neg (by simp [CharStr.write]; omega)]
+  rw [slice_at (a := pre ++ [UInt8.ofNat s.length]) (m := s) (z := post)
+    (by simp [CharStr.write]) (by simp) (by simp)]
+  simp only [Out.bind_ok, Out.pure_eq]
+  congr 2
+
+theorem decode_charstr (pre s post : Bytes) (hs : s.length ≤ 255) :
+    decField (pre ++ (CharStr.write s ++ post)) .charstr pre.length
+      = .ok (.bytes s, pre.length + (s.length + 1)) := by
+  simp [decField, charStr_decode pre s post hs]
+
+theorem decode_name (pre post : Bytes) (c : Bool) (n : Name) (h : Name.WF n) :
+    decField (pre ++ (Name.write n ++ post)) (.name c) pre.length
+      = .ok (.name n, pre.length + Name.wireLen n) := by
+  simp [decField, Name.parse_write h pre post]
+
+theorem decode_rest (pre b : Bytes) :
+    decField (pre ++ b) .rest pre.length = .ok (.bytes b, pre.length + b.length) := by
+  simp only [decField]
+  rw [slice_at (a := pre) (m := b) (z := []) (by simp) rfl (by simp)]
+  simp
+
+theorem strsLoop_decode (ss : List Bytes) : ∀ (pre : Bytes) (acc : List Bytes),
+    (∀ s ∈ ss, s.length ≤ 255) →
+    strsLoop (pre ++ encStrs ss) pre.length acc
+      = .ok (acc.reverse ++ ss, pre.length + (encStrs ss).length) := by
+  induction ss with
+  | nil =>
+    intro pre acc _
+    rw [strsLoop]
+    simp [encStrs]
+  | cons s ss ih =>
+    intro pre acc hs
+    have h1 := charStr_decode pre s (encStrs ss) (hs s (by simp))
+    have h2 := ih (pre ++ CharStr.write s) (s :: acc) (fun x hx => hs x (by simp [hx]))
+    simp only [encStrs]
+    rw [strsLoop]
+    rw [dif_pos (by simp [CharStr.write])]
+    split
+    · rename_i s' p' hcs
+      rw [h1] at hcs
+      cases hcs
+      have e : pre ++ (CharStr.write s ++ encStrs ss) = (pre ++ CharStr.write s) ++ encStrs ss := by
+        simp
+      have e2 : pre.length + (s.length + 1) = (pre ++ CharStr.write s).length := by
+        simp [CharStr.write]
+      rw [e, e2, h2]
+      simp [CharStr.write]; omega
+    · rename_i hcs; rw [h1] at hcs; cases hcs
+    · rename_i hcs; rw [h1] at hcs; cases hcs
+
+theorem decode_strs (pre : Bytes) (ss : List Bytes) (hs : ∀ s ∈ ss, s.length ≤ 255) :
+    decField (pre ++ encStrs ss) .strs pre.length
+      = .ok (.strs ss, pre.length + (encStrs ss).length) := by
+  simp [decField, strsLoop_decode ss pre [] hs]
+
+theorem tlvOne_decode (pre : Bytes) (kw lw k : Nat) (v post : Bytes) (strict : Bool)
+    (prev : Option Nat) (hk : k < 256 ^ kw) (hv : v.length < 256 ^ lw)
+    (hord : (strict && keyNotAfter prev k) = false) :
+    tlvOne (pre ++ (beN kw k ++ (beN lw v.length ++ (v ++ post)))) kw lw strict prev pre.length
+      = .ok ((k, v), pre.length + kw + lw + v.length) := by
+  unfold tlvOne
+  rw [if_neg (by simp; omega)]
+  rw [slice_at (a := pre) (m := beN kw k) (z := beN lw v.length ++ (v ++ post)) rfl rfl (by simp)]
+  simp only [Out.bind_ok]
+  rw [slice_at (a := pre ++ beN kw k) (m := beN lw v.length) (z := v ++ post) (by simp) (by simp)
+    (by simp)]
+  simp only [Out.bind_ok, deN_beN kw k hk, deN_beN lw v.length hv, hord]
+  rw [if_neg (by simp)]
+  rw [if_neg (by simp; omega)]
+  rw [slice_at (a := pre ++ (beN kw k ++ beN lw v.length)) (m := v) (z := post) (by simp)
+    (by simp; omega) (by simp; omega)]
+  simp
+
+/-- the ordering premise of the strict loop: the keys still to be read increase, starting above
+the key read last -/
+def KeysAfter (acc xs : List (Nat × Bytes)) : Prop :=
+  KeysIncreasing xs ∧ ∀ a ∈ acc.head?, ∀ x ∈ xs.head?, a.1 < x.1
+
+theorem tlvsLoop_decode (kw lw : Nat) (strict : Bool) (hkl : 0 < kw + lw)
+    (xs : List (Nat × Bytes)) : ∀ (pre : Bytes) (acc : List (Nat × Bytes)),
+    (∀ x ∈ xs, x.1 < 256 ^ kw ∧ x.2.length < 256 ^ lw) →
+    (strict = true → KeysAfter acc xs) →
+    tlvsLoop (pre ++ encTlvs kw lw xs) kw lw strict pre.length acc
+      = .ok (acc.reverse ++ xs, pre.length + (encTlvs kw lw xs).length) := by
+  induction xs with
+  | nil =>
+    intro pre acc _ _
+    rw [tlvsLoop]
+    rw [dif_neg (by omega)]
+    simp [encTlvs]
+  | cons x xs ih =>
+    intro pre acc hx hord
+    obtain ⟨k, v⟩ := x
+    have hkv := hx (k, v) (by simp)
+    simp only at hkv
+    have hord1 : (strict && keyNotAfter (acc.head?.map (·.1)) k) = false := by
+      cases strict
+      · rfl
+      · obtain ⟨_, h2⟩ := hord rfl
+        cases hacc : acc.head? with
+        | none => simp [keyNotAfter]
+        | some a =>
+          have := h2 a (by simp [hacc]) (k, v) (by simp)
+          simp [keyNotAfter]; omega
+    have h1 := tlvOne_decode pre kw lw k v (encTlvs kw lw xs) strict (acc.head?.map (·.1))
+      hkv.1 hkv.2 hord1
+    have h2 := ih (pre ++ (beN kw k ++ (beN lw v.length ++ v))) ((k, v) :: acc)
+      (fun y hy => hx y (by simp [hy]))
+      (by
+        intro hs
+        obtain ⟨hinc, _⟩ := hord hs
+        cases xs with
+        | nil => exact ⟨trivial, by simp⟩
+        | cons y ys =>
+          simp only [KeysIncreasing] at hinc
+          exact ⟨hinc.2, by simpa using hinc.1⟩)
+    simp only [encTlvs]
+    rw [tlvsLoop]
+    rw [dif_neg (by omega)]
+    rw [dif_pos (by
+      have : 0 < (beN kw k ++ (beN lw v.length ++ (v ++ encTlvs kw lw xs))).length := by
+        simp; omega
+      simp only [List.length_append] at this ⊢; omega)]
+    split
+    · rename_i x' p' hone
+      rw [h1] at hone
+      cases hone
+      have e : pre ++ (beN kw k ++ (beN lw v.length ++ (v ++ encTlvs kw lw xs)))
+          = (pre ++ (beN kw k ++ (beN lw v.length ++ v))) ++ encTlvs kw lw xs := by simp
+      have e2 : pre.length + kw + lw + v.length
+          = (pre ++ (beN kw k ++ (beN lw v.length ++ v))).length := by simp; omega
+      rw [e, e2, h2]
+      simp; omega
+    · rename_i hone; rw [h1] at hone; cases hone
+    · rename_i hone; rw [h1] at hone; cases hone
+
+theorem decode_tlvs (pre : Bytes) (kw lw : Nat) (strict : Bool) (hkl : 0 < kw + lw)
+    (xs : List (Nat × Bytes)) (hx : ∀ x ∈ xs, x.1 < 256 ^ kw ∧ x.2.length < 256 ^ lw)
+    (hinc : strict = true → KeysIncreasing xs) :
+    decField (pre ++ encTlvs kw lw xs) (.tlvs kw lw strict) pre.length
+      = .ok (.tlvs xs, pre.length + (encTlvs kw lw xs).length) := by
+  simp [decField, tlvsLoop_decode kw lw strict hkl xs pre [] hx
+    (fun hs => ⟨hinc hs, by simp⟩)]
+
+/-- kinds that read up to the end of the RDATA -/
+def tailKind : FKind → Bool
+  | .rest | .strs | .tlvs .. => true
+  | _ => false
+
+/-- every field that reads to the end of the RDATA is the last one -/
+def tailLast : List FKind → Bool
+  | [] => true
+  | [_] => true
+  | k :: ks => !tailKind k && tailLast ks
+
+/-- One field of a reference encoding is read back as the value, with the cursor just past it;
+a field that reads to the end of the RDATA must be followed by nothing. -/
+theorem decode_field (k : FKind) (v : Val) (pre post : Bytes) (hv : FieldOK k v) (hs : k.Safe)
+    (ht : tailKind k = true → post = []) :
+    decField (pre ++ (encField k v ++ post)) k pre.length
+      = .ok (v, pre.length + (encField k v).length) := by
+  cases k <;> cases v <;> simp only [FieldOK] at hv
+  · simpa [encField] using decode_int pre post _ _ hv
+  · simpa [encField, CharStr.write] using decode_charstr pre _ post hv
+  · simpa [encField, Name.write_length] using decode_name pre post _ _ hv
+  · rw [ht rfl]; simpa [encField] using decode_rest pre _
+  · rename_i ss
+    have : ss.isEmpty = false := by
+      cases ss with
+      | nil => exact absurd rfl hv.1
+      | cons _ _ => rfl
+    rw [ht rfl]; simpa [encField, this] using decode_strs pre ss hv.2
+  · rename_i kw lw strict xs
+    have hsort : (if strict = true then sortByKey xs else xs) = xs := by
+      cases strict with
+      | false => rfl
+      | true => simp [sortByKey_of_increasing xs (hv.2 rfl)]
+    rw [ht rfl]
+    simp only [encField, hsort, List.append_nil]
+    exact decode_tlvs pre kw lw strict hs xs hv.1 hv.2
+
+theorem decode_all (ks : List FKind) : ∀ (vs : List Val) (pre : Bytes), AllOK ks vs →
+    (∀ k ∈ ks, k.Safe) → tailLast ks = true →
+    decAll (pre ++ encAll ks vs) ks pre.length = .ok (vs, pre.length + (encAll ks vs).length) := by
+  induction ks with
+  | nil =>
+    intro vs pre hok _ _
+    cases vs with
+    | nil => simp [decAll, encAll]
+    | cons _ _ => simp [AllOK] at hok
+  | cons k ks ih =>
+    intro vs pre hok hsafe htl
+    cases vs with
+    | nil => simp [AllOK] at hok
+    | cons v vs =>
+      simp only [AllOK] at hok
+      have htail : tailKind k = true → encAll ks vs = [] := by
+        intro hk
+        cases ks with
+        | nil => cases vs <;> rfl
+        | cons k' ks' => simp [tailLast, hk] at htl
+      have htl' : tailLast ks = true := by
+        cases ks with
+        | nil => rfl
+        | cons k' ks' => simp [tailLast] at htl; exact htl.2
+      have h1 := decode_field k v pre (encAll ks vs) hok.1 (hsafe k (by simp)) htail
+      have h2 := ih vs (pre ++ encField k v) hok.2 (fun x hx => hsafe x (by simp [hx])) htl'
+      simp only [decAll, encAll, h1, Out.bind_ok]
+      have e : pre ++ (encField k v ++ encAll ks vs) = (pre ++ encField k v) ++ encAll ks vs := by
+        simp
+      have e2 : pre.length + (encField k v).length = (pre ++ encField k v).length := by simp
+      rw [e, e2, h2]
+      simp; omega
+
+/-! ### a whole RDATA, a whole record body -/
+
+theorem type_toCode_ofCode (c : Nat) : (TYPE.ofCode c).toCode = c := by
+  unfold TYPE.ofCode; split <;> rfl
+
+theorem parseTyped_flat (d : Bytes) (pos code : Nat) (ks : List FKind)
+    (h : schemaOf code = some ks) :
+    parseTyped d pos (TYPE.ofCode code) = (do
+      let (vs, p) ← decAll d ks pos
+      if flatCheck code vs then pure (.flat code vs, p) else .err) := by
+  unfold schemaOf at h
+  split at h <;> first | (cases h; rfl) | cases h
+
+/-- the first field of a row always occupies at least one octet -/
+def minOne : FKind → Bool
+  | .int w => decide (0 < w)
+  | .charstr | .name _ | .strs => true
+  | _ => false
+
+theorem schemaOf_shape {code : Nat} {ks : List FKind} (h : schemaOf code = some ks) :
+    tailLast ks = true ∧ (∃ k ks', ks = k :: ks' ∧ minOne k = true) ∧ code < 65536 ∧
+    TYPE.ofCode code ≠ .OPT := by
+  unfold schemaOf at h
+  split at h <;> first
+    | (cases h; exact ⟨by decide, ⟨_, _, rfl, by decide⟩, by decide, by decide⟩)
+    | cases h
+
+theorem encField_pos {k : FKind} {v : Val} (hv : FieldOK k v) (hm : minOne k = true) :
+    0 < (encField k v).length := by
+  cases k with
+  | int w =>
+    cases v <;> simp only [FieldOK] at hv
+    simpa [encField, minOne] using hm
+  | charstr =>
+    cases v <;> simp only [FieldOK] at hv
+    simp [encField, CharStr.write]
+  | name c =>
+    cases v <;> simp only [FieldOK] at hv
+    rename_i n; cases n <;> simp [encField, Name.write]
+  | strs =>
+    cases v <;> simp only [FieldOK] at hv
+    rename_i ss
+    cases ss with
+    | nil => exact absurd rfl hv.1
+    | cons s ss => simp [encField, encStrs, CharStr.write]
+  | rest => simp [minOne] at hm
+  | tlvs => simp [minOne] at hm
+
+theorem encAll_pos {code : Nat} {ks : List FKind} {vs : List Val} (h : schemaOf code = some ks)
+    (hok : AllOK ks vs) : 0 < (encAll ks vs).length := by
+  obtain ⟨_, ⟨k, ks', rfl, hm⟩, _⟩ := schemaOf_shape h
+  cases vs with
+  | nil => simp [AllOK] at hok
+  | cons v vs =>
+    have := encField_pos hok.1 hm
+    simp [encAll]; omega
+
+/-- the typed RDATA parser on the reference encoding of the fields -/
+theorem parseTyped_enc {code : Nat} {ks : List FKind} {vs : List Val} (pre : Bytes)
+    (hs : schemaOf code = some ks) (hok : AllOK ks vs) (hc : flatCheck code vs = true) :
+    parseTyped (pre ++ encAll ks vs) pre.length (TYPE.ofCode code)
+      = .ok (.flat code vs, pre.length + (encAll ks vs).length) := by
+  rw [parseTyped_flat _ _ _ _ hs, decode_all ks vs pre hok (schemaOf_safe hs) (schemaOf_shape hs).1]
+  simp [hc]
+
+/-- `RData.parse` at the TYPE field of a record body: TYPE = the type's number, any CLASS and TTL
+octets, RDLENGTH = the length of the reference encoding, the encoding, then anything -/
+theorem rdataParse_enc {code : Nat} {ks : List FKind} {vs : List Val} (pre cb tb post : Bytes)
+    (hcb : cb.length = 2) (htb : tb.length = 4)
+    (hs : schemaOf code = some ks) (hok : AllOK ks vs) (hc : flatCheck code vs = true)
+    (hlen : (encAll ks vs).length < 65536) :
+    RData.parse (pre ++ (beN 2 code ++ (cb ++ (tb ++ (beN 2 (encAll ks vs).length ++
+        (encAll ks vs ++ post)))))) pre.length
+      = .ok (.flat code vs, pre.length + 10 + (encAll ks vs).length) := by
+  obtain ⟨_, _, hcode, hnopt⟩ := schemaOf_shape hs
+  have hpos := encAll_pos hs hok
+  generalize hrd : encAll ks vs = rd at *
+  unfold RData.parse
+  rw [if_neg (by simp; omega)]
+  rw [slice_at (a := pre) (m := beN 2 code) (z := cb ++ (tb ++ (beN 2 rd.length ++ (rd ++ post))))
+    rfl rfl (by simp)]
+  simp only [Out.bind_ok]
+  rw [slice_at (a := pre ++ (beN 2 code ++ (cb ++ tb))) (m := beN 2 rd.length) (z := rd ++ post)
+    (by simp) (by simp; omega) (by simp; omega)]
+  simp only [Out.bind_ok, deN_beN 2 code (by simpa using hcode), deN_beN 2 rd.length (by simpa using hlen)]
+  rw [if_neg (by simp; omega), if_neg hnopt, if_neg (by omega)]
+  have htake : List.take (pre.length + 10 + rd.length)
+      (pre ++ (beN 2 code ++ (cb ++ (tb ++ (beN 2 rd.length ++ (rd ++ post))))))
+      = (pre ++ (beN 2 code ++ (cb ++ (tb ++ beN 2 rd.length)))) ++ rd := by
+    have e : pre ++ (beN 2 code ++ (cb ++ (tb ++ (beN 2 rd.length ++ (rd ++ post)))))
+        = ((pre ++ (beN 2 code ++ (cb ++ (tb ++ beN 2 rd.length)))) ++ rd) ++ post := by simp
+    rw [e]
+    exact List.take_left' (by simp; omega)
+  have hpl : pre.length + 10 = (pre ++ (beN 2 code ++ (cb ++ (tb ++ beN 2 rd.length)))).length := by
+    simp; omega
+  simp only [htake]
+  rw [hpl, ← hrd, parseTyped_enc _ hs hok hc]
+  simp
+
+/-! ### rejection: lengths that overrun the RDATA, keys that do not increase -/
+
+/-- a <character-string> whose length octet announces more than what remains -/
+theorem charStr_overrun {d : Bytes} {pos : Nat} (h : pos < d.length)
+    (hl : d[pos].toNat + pos + 1 > d.length) : CharStr.parse d pos = .err := by
+  unfold CharStr.parse
+  rw [if_neg (by omega), idx_ok h]
+  simp only [Out.bind_ok]
+  rw [if_pos (Or.inr hl)]
+
+theorem charStr_at_end {d : Bytes} {pos : Nat} (h : pos ≥ d.length) :
+    CharStr.parse d pos = .err := by
+  unfold CharStr.parse; rw [if_pos h]
+
+/-- the (key, length) head of a triple does not fit in what remains -/
+theorem tlvOne_overrun_head {d : Bytes} {kw lw : Nat} {strict : Bool} {prev : Option Nat}
+    {pos : Nat} (h : pos + kw + lw > d.length) : tlvOne d kw lw strict prev pos = .err := by
+  unfold tlvOne; rw [if_pos h]
+
+/-- the length field of a triple announces more than what remains -/
+theorem tlvOne_overrun_value {d : Bytes} {kw lw : Nat} {strict : Bool} {prev : Option Nat}
+    {pos : Nat} (h : pos + kw + lw + deN ((d.drop (pos + kw)).take lw) > d.length) :
+    tlvOne d kw lw strict prev pos = .err := by
+  unfold tlvOne
+  split
+  · rfl
+  · rename_i hfit
+    rw [slice_ok (by omega) (by omega), slice_ok (by omega) (by omega)]
+    simp only [Out.bind_ok]
+    split
+    · rfl
+    · rw [show pos + kw + lw - (pos + kw) = lw by omega, if_pos h]
+
+/-- strict order: a key that is not greater than the previous one -/
+theorem tlvOne_key_not_increasing {d : Bytes} {kw lw : Nat} {prev pos : Nat}
+    (h : deN ((d.drop pos).take kw) ≤ prev) : tlvOne d kw lw true (some prev) pos = .err := by
+  unfold tlvOne
+  split
+  · rfl
+  · rename_i hfit
+    rw [slice_ok (by omega) (by omega), slice_ok (by omega) (by omega)]
+    simp only [Out.bind_ok]
+    rw [show pos + kw - pos = kw by omega, if_pos (by simp [keyNotAfter, h])]
+
+/-- the loops stop with `Err` as soon as the element reader does -/
+theorem strsLoop_err {d : Bytes} {pos : Nat} {acc : List Bytes} (hp : pos < d.length)
+    (h : CharStr.parse d pos = .err) : strsLoop d pos acc = .err := by
+  rw [strsLoop, dif_pos hp]
+  split
+  · rename_i hcs; rw [h] at hcs; cases hcs
+  · rfl
+  · rename_i hcs; rw [h] at hcs; cases hcs
+
+theorem tlvsLoop_err {d : Bytes} {kw lw : Nat} {strict : Bool} {pos : Nat}
+    {acc : List (Nat × Bytes)} (hkl : 0 < kw + lw) (hp : pos < d.length)
+    (h : tlvOne d kw lw strict (acc.head?.map (·.1)) pos = .err) :
+    tlvsLoop d kw lw strict pos acc = .err := by
+  rw [tlvsLoop, dif_neg (by omega), dif_pos hp]
+  split
+  · rename_i hone; rw [h] at hone; cases hone
+  · rfl
+  · rename_i hone; rw [h] at hone; cases hone
+
+theorem optLoop_err {d : Bytes} {pos : Nat} {acc : List (Nat × Bytes)} (hp : pos < d.length)
+    (h : tlvOne d 2 2 false none pos = .err) : optLoop d pos acc = .err := by
+  rw [optLoop, dif_pos hp]
+  split
+  · rename_i hone; rw [h] at hone; cases hone
+  · rfl
+  · rename_i hone; rw [h] at hone; cases hone
+
+
+/-! the loops on a well-formed prefix followed by anything -/
+
+theorem strsLoop_prefix (ss : List Bytes) : ∀ (pre post : Bytes) (acc : List Bytes),
+    (∀ s ∈ ss, s.length ≤ 255) →
+    strsLoop (pre ++ (encStrs ss ++ post)) pre.length acc
+      = strsLoop ((pre ++ encStrs ss) ++ post) (pre ++ encStrs ss).length (ss.reverse ++ acc) := by
+  induction ss with
+  | nil => intro pre post acc _; simp [encStrs]
+  | cons s ss ih =>
+    intro pre post acc hs
+    have h1 := charStr_decode pre s (encStrs ss ++ post) (hs s (by simp))
+    have h2 := ih (pre ++ CharStr.write s) post (s :: acc) (fun x hx => hs x (by simp [hx]))
+    have e : pre ++ (encStrs (s :: ss) ++ post)
+        = pre ++ (CharStr.write s ++ (encStrs ss ++ post)) := by simp [encStrs]
+    rw [e, strsLoop, dif_pos (by simp [CharStr.write])]
+    split
+    · rename_i s' p' hcs
+      rw [h1] at hcs
+      cases hcs
+      have e1 : pre ++ (CharStr.write s ++ (encStrs ss ++ post))
+          = (pre ++ CharStr.write s) ++ (encStrs ss ++ post) := by simp
+      have e2 : pre.length + (s.length + 1) = (pre ++ CharStr.write s).length := by
+        simp [CharStr.write]
+      rw [e1, e2, h2]
+      simp [encStrs]
+    · rename_i hcs; rw [h1] at hcs; cases hcs
+    · rename_i hcs; rw [h1] at hcs; cases hcs
+
+/-- After any number of well-formed strings, a string whose length octet `lb` announces more than
+the `rest` that remains makes the TXT loop fail. -/
+theorem strs_overrun_rejected (pre : Bytes) (ss : List Bytes) (lb : UInt8) (rest : Bytes)
+    (acc : List Bytes) (hs : ∀ s ∈ ss, s.length ≤ 255) (hbad : lb.toNat > rest.length) :
+    strsLoop (pre ++ (encStrs ss ++ lb :: rest)) pre.length acc = .err := by
+  rw [strsLoop_prefix ss pre (lb :: rest) acc hs]
+  have hp : (pre ++ encStrs ss).length < ((pre ++ encStrs ss) ++ lb :: rest).length := by simp
+  apply strsLoop_err hp
+  apply charStr_overrun hp
+  have : ((pre ++ encStrs ss) ++ lb :: rest)[(pre ++ encStrs ss).length] = lb := by
+    rw [List.getElem_append_right (Nat.le_refl _)]; simp
+  rw [this]
+  simp only [List.length_append, List.length_cons] at hp ⊢
+  omega
+
+theorem tlvsLoop_prefix (kw lw : Nat) (strict : Bool) (hkl : 0 < kw + lw)
+    (xs : List (Nat × Bytes)) : ∀ (pre post : Bytes) (acc : List (Nat × Bytes)),
+    (∀ x ∈ xs, x.1 < 256 ^ kw ∧ x.2.length < 256 ^ lw) →
+    (strict = true → KeysAfter acc xs) →
+    tlvsLoop (pre ++ (encTlvs kw lw xs ++ post)) kw lw strict pre.length acc
+      = tlvsLoop ((pre ++ encTlvs kw lw xs) ++ post) kw lw strict
+          (pre ++ encTlvs kw lw xs).length (xs.reverse ++ acc) := by
+  induction xs with
+  | nil => intro pre post acc _ _; simp [encTlvs]
+  | cons x xs ih =>
+    intro pre post acc hx hord
+    obtain ⟨k, v⟩ := x
+    have hkv := hx (k, v) (by simp)
+    simp only at hkv
+    have hord1 : (strict && keyNotAfter (acc.head?.map (·.1)) k) = false := by
+      cases strict
+      · rfl
+      · obtain ⟨_, h2⟩ := hord rfl
+        cases hacc : acc.head? with
+        | none => simp [keyNotAfter]
+        | some a =>
+          have := h2 a (by simp [hacc]) (k, v) (by simp)
+          simp [keyNotAfter]; omega
+    have h1 := tlvOne_decode pre kw lw k v (encTlvs kw lw xs ++ post) strict
+      (acc.head?.map (·.1)) hkv.1 hkv.2 hord1
+    have h2 := ih (pre ++ (beN kw k ++ (beN lw v.length ++ v))) post ((k, v) :: acc)
+      (fun y hy => hx y (by simp [hy]))
+      (by
+        intro hs
+        obtain ⟨hinc, _⟩ := hord hs
+        cases xs with
+        | nil => exact ⟨trivial, by simp⟩
+        | cons y ys =>
+          simp only [KeysIncreasing] at hinc
+          exact ⟨hinc.2, by simpa using hinc.1⟩)
+    have e : pre ++ (encTlvs kw lw ((k, v) :: xs) ++ post)
+        = pre ++ (beN kw k ++ (beN lw v.length ++ (v ++ (encTlvs kw lw xs ++ post)))) := by
+      simp [encTlvs]
+    rw [e, tlvsLoop, dif_neg (by omega), dif_pos (by simp; omega)]
+    split
+    · rename_i x' p' hone
+      rw [h1] at hone
+      cases hone
+      have e1 : pre ++ (beN kw k ++ (beN lw v.length ++ (v ++ (encTlvs kw lw xs ++ post))))
+          = (pre ++ (beN kw k ++ (beN lw v.length ++ v))) ++ (encTlvs kw lw xs ++ post) := by simp
+      have e2 : pre.length + kw + lw + v.length
+          = (pre ++ (beN kw k ++ (beN lw v.length ++ v))).length := by simp; omega
+      rw [e1, e2, h2]
+      simp [encTlvs]
+    · rename_i hone; rw [h1] at hone; cases hone
+    · rename_i hone; rw [h1] at hone; cases hone
+
+/-- Strict triples (NSEC windows, SVCB parameters) whose keys are not strictly increasing are
+rejected, wherever in the list the order breaks. -/
+theorem tlvs_unordered_rejected (kw lw : Nat) (hkl : 0 < kw + lw) (xs : List (Nat × Bytes)) :
+    ∀ (pre post : Bytes) (acc : List (Nat × Bytes)),
+    (∀ x ∈ xs, x.1 < 256 ^ kw ∧ x.2.length < 256 ^ lw) → ¬ KeysAfter acc xs →
+    tlvsLoop (pre ++ (encTlvs kw lw xs ++ post)) kw lw true pre.length acc = .err := by
+  induction xs with
+  | nil => intro pre post acc _ hno; exact absurd ⟨trivial, by simp⟩ hno
+  | cons x xs ih =>
+    intro pre post acc hx hno
+    obtain ⟨k, v⟩ := x
+    have hkv := hx (k, v) (by simp)
+    simp only at hkv
+    have e : pre ++ (encTlvs kw lw ((k, v) :: xs) ++ post)
+        = pre ++ (beN kw k ++ (beN lw v.length ++ (v ++ (encTlvs kw lw xs ++ post)))) := by
+      simp [encTlvs]
+    have hp : pre.length
+        < (pre ++ (beN kw k ++ (beN lw v.length ++ (v ++ (encTlvs kw lw xs ++ post))))).length := by
+      simp; omega
+    rw [e]
+    by_cases hhead : ∀ a ∈ acc.head?, a.1 < k
+    · -- this key is fine: the order breaks later
+      have hord1 : (true && keyNotAfter (acc.head?.map (·.1)) k) = false := by
+        cases hacc : acc.head? with
+        | none => simp [keyNotAfter]
+        | some a =>
+          have := hhead a (by simp [hacc])
+          simp [keyNotAfter]; omega
+      have h1 := tlvOne_decode pre kw lw k v (encTlvs kw lw xs ++ post) true
+        (acc.head?.map (·.1)) hkv.1 hkv.2 hord1
+      have hno' : ¬ KeysAfter ((k, v) :: acc) xs := by
+        intro hka
+        apply hno
+        cases xs with
+        | nil => exact ⟨trivial, by simpa using hhead⟩
+        | cons y ys =>
+          obtain ⟨hinc, hlt⟩ := hka
+          refine ⟨⟨by simpa using hlt, hinc⟩, by simpa using hhead⟩
+      have h2 := ih (pre ++ (beN kw k ++ (beN lw v.length ++ v))) post ((k, v) :: acc)
+        (fun y hy => hx y (by simp [hy])) hno'
+      rw [tlvsLoop, dif_neg (by omega), dif_pos hp]
+      split
+      · rename_i x' p' hone
+        rw [h1] at hone
+        cases hone
+        have e1 : pre ++ (beN kw k ++ (beN lw v.length ++ (v ++ (encTlvs kw lw xs ++ post))))
+            = (pre ++ (beN kw k ++ (beN lw v.length ++ v))) ++ (encTlvs kw lw xs ++ post) := by simp
+        have e2 : pre.length + kw + lw + v.length
+            = (pre ++ (beN kw k ++ (beN lw v.length ++ v))).length := by simp; omega
+        rw [e1, e2, h2]
+      · rfl
+      · rename_i hone; rw [h1] at hone; cases hone
+    · -- this key is not greater than the previous one
+      apply tlvsLoop_err hkl hp
+      cases hacc : acc.head? with
+      | none => rw [hacc] at hhead; simp at hhead
+      | some a =>
+        rw [hacc] at hhead
+        simp only [Option.mem_def, Option.some.injEq, forall_eq'] at hhead
+        simp only [Option.map_some]
+        apply tlvOne_key_not_increasing
+        have : List.take kw (List.drop pre.length
+            (pre ++ (beN kw k ++ (beN lw v.length ++ (v ++ (encTlvs kw lw xs ++ post))))))
+            = beN kw k := by
+          rw [List.drop_left']
+          · exact List.take_left' (by simp)
+          · rfl
+        rw [this, deN_beN kw k hkv.1]
+        omega
+
+theorem optLoop_prefix (xs : List (Nat × Bytes)) : ∀ (pre post : Bytes) (acc : List (Nat × Bytes)),
+    (∀ x ∈ xs, x.1 < 65536 ∧ x.2.length < 65536) →
+    optLoop (pre ++ (encTlvs 2 2 xs ++ post)) pre.length acc
+      = optLoop ((pre ++ encTlvs 2 2 xs) ++ post) (pre ++ encTlvs 2 2 xs).length
+          (xs.reverse ++ acc) := by
+  induction xs with
+  | nil => intro pre post acc _; simp [encTlvs]
+  | cons x xs ih =>
+    intro pre post acc hx
+    obtain ⟨k, v⟩ := x
+    have hkv := hx (k, v) (by simp)
+    simp only at hkv
+    have h1 := tlvOne_decode pre 2 2 k v (encTlvs 2 2 xs ++ post) false none hkv.1 hkv.2 rfl
+    have h2 := ih (pre ++ (beN 2 k ++ (beN 2 v.length ++ v))) post ((k, v) :: acc)
+      (fun y hy => hx y (by simp [hy]))
+    have e : pre ++ (encTlvs 2 2 ((k, v) :: xs) ++ post)
+        = pre ++ (beN 2 k ++ (beN 2 v.length ++ (v ++ (encTlvs 2 2 xs ++ post)))) := by
+      simp [encTlvs]
+    rw [e, optLoop, dif_pos (by simp; omega)]
+    split
+    · rename_i x' p' hone
+      rw [h1] at hone
+      cases hone
+      have e1 : pre ++ (beN 2 k ++ (beN 2 v.length ++ (v ++ (encTlvs 2 2 xs ++ post))))
+          = (pre ++ (beN 2 k ++ (beN 2 v.length ++ v))) ++ (encTlvs 2 2 xs ++ post) := by simp
+      have e2 : pre.length + 2 + 2 + v.length
+          = (pre ++ (beN 2 k ++ (beN 2 v.length ++ v))).length := by simp; omega
+      rw [e1, e2, h2]
+      simp [encTlvs]
+    · rename_i hone; rw [h1] at hone; cases hone
+    · rename_i hone; rw [h1] at hone; cases hone
+
+/-- a trailing fragment `bad` that is not a whole triple: its (key, length) head does not fit, or
+its length field announces more than what remains -/
+def BadTriple (kw lw : Nat) (bad : Bytes) : Prop :=
+  bad ≠ [] ∧ (bad.length < kw + lw ∨ kw + lw + deN ((bad.drop kw).take lw) > bad.length)
+
+theorem tlvOne_bad {pre bad : Bytes} {kw lw : Nat} {strict : Bool} {prev : Option Nat}
+    (h : BadTriple kw lw bad) : tlvOne (pre ++ bad) kw lw strict prev pre.length = .err := by
+  rcases h.2 with h | h
+  · exact tlvOne_overrun_head (by simp; omega)
+  · by_cases hh : bad.length < kw + lw
+    · exact tlvOne_overrun_head (by simp; omega)
+    · apply tlvOne_overrun_value
+      have : List.drop (pre.length + kw) (pre ++ bad) = bad.drop kw := by
+        rw [List.drop_append]
+        simp
+      rw [this]
+      simp; omega
+
+/-- EDNS options: after any number of whole options, a fragment that is not a whole option makes
+`OPT::parse` fail -/
+theorem opt_overrun_rejected (pre : Bytes) (xs : List (Nat × Bytes)) (bad : Bytes)
+    (acc : List (Nat × Bytes)) (hx : ∀ x ∈ xs, x.1 < 65536 ∧ x.2.length < 65536)
+    (hbad : BadTriple 2 2 bad) :
+    optLoop (pre ++ (encTlvs 2 2 xs ++ bad)) pre.length acc = .err := by
+  rw [optLoop_prefix xs pre bad acc hx]
+  have hne : 0 < bad.length := List.length_pos_iff.mpr hbad.1
+  exact optLoop_err (by simp; omega) (tlvOne_bad hbad)
+
+/-- the same for the triples of NSEC and SVCB -/
+theorem tlvs_overrun_rejected (pre : Bytes) (kw lw : Nat) (strict : Bool) (hkl : 0 < kw + lw)
+    (xs : List (Nat × Bytes)) (bad : Bytes)
+    (hx : ∀ x ∈ xs, x.1 < 256 ^ kw ∧ x.2.length < 256 ^ lw)
+    (hinc : strict = true → KeysIncreasing xs) (hbad : BadTriple kw lw bad) :
+    tlvsLoop (pre ++ (encTlvs kw lw xs ++ bad)) kw lw strict pre.length [] = .err := by
+  rw [tlvsLoop_prefix kw lw strict hkl xs pre bad [] hx (fun hs => ⟨hinc hs, by simp⟩)]
+  have hne : 0 < bad.length := List.length_pos_iff.mpr hbad.1
+  exact tlvsLoop_err hkl (by simp; omega) (tlvOne_bad hbad)
+
+/-! ### `liftOpt` and pointwise-related lists -/
+
+theorem liftOpt_none {l : List RR} (h : ∀ r ∈ l, r.rdata.typeOf ≠ .OPT) :
+    liftOpt l = (none, l) := by
+  induction l with
+  | nil => rfl
+  | cons x xs ih =>
+    simp only [liftOpt]
+    rw [if_neg (h x (by simp)), ih (fun r hr => h r (by simp [hr]))]
+
+/-- `liftOpt` removes the first OPT-typed record and nothing else -/
+theorem liftOpt_first {pre post : List RR} {r : RR} (hpre : ∀ x ∈ pre, x.rdata.typeOf ≠ .OPT)
+    (hr : r.rdata.typeOf = .OPT) : liftOpt (pre ++ r :: post) = (some r, pre ++ post) := by
+  induction pre with
+  | nil => simp [liftOpt, hr]
+  | cons x xs ih =>
+    simp only [List.cons_append, liftOpt]
+    rw [if_neg (hpre x (by simp)), ih (fun y hy => hpre y (by simp [hy]))]
+
+theorem corr_split {α β : Type} {R : α → β → Prop} {as : List α} {bpre : List β} {b : β}
+    {bpost : List β} (h : Framing.Corr R as (bpre ++ b :: bpost)) :
+    ∃ apre a apost, as = apre ++ a :: apost ∧ apre.length = bpre.length ∧ Framing.Corr R apre bpre ∧
+      R a b ∧ Framing.Corr R apost bpost := by
+  induction bpre generalizing as with
+  | nil =>
+    cases h with
+    | cons hab hrest => exact ⟨[], _, _, rfl, rfl, Framing.Corr.nil, hab, hrest⟩
+  | cons y ys ih =>
+    cases h with
+    | cons hab hrest =>
+      obtain ⟨apre, a, apost, has, hl, hc, hr, hp⟩ := ih hrest
+      exact ⟨_ :: apre, a, apost, by simp [has], by simp [hl], Framing.Corr.cons hab hc, hr, hp⟩
+
+theorem corr_forall_left {α β : Type} {R : α → β → Prop} {P : α → Prop} {Q : β → Prop}
+    {as : List α} {bs : List β} (h : Framing.Corr R as bs) (hq : ∀ b ∈ bs, Q b)
+    (himp : ∀ a b, R a b → Q b → P a) : ∀ a ∈ as, P a := by
+  induction h with
+  | nil => intro a ha; cases ha
+  | cons hab _ ih =>
+    intro a ha
+    rcases List.mem_cons.mp ha with rfl | ha
+    · exact himp _ _ hab (hq _ (by simp))
+    · exact ih (fun b hb => hq b (by simp [hb])) a ha
 
 end Rfc
 end Dns
